@@ -102,11 +102,11 @@ def pdk_designs(ctx, rng, n: int) -> Iterator[Tuple[str, Callable]]:
             top.add(h.Mos(tp=MosType.NMOS)(d=top.a, g=top.b, s=top.VSS, b=top.VSS), name="n0")
             top.add(h.Mos(tp=MosType.PMOS)(d=top.a, g=top.b, s=top.VDD, b=top.VDD), name="p0")
         elif kind == "sky130":
-            top.add(h.Mos(tp=MosType.NMOS, model="sky130_fd_pr__nfet_01v8")(d=top.a, g=top.b, s=top.VSS, b=top.VSS), name="n0")
+            top.add(h.Mos(tp=MosType.NMOS, model="NMOS_1p8V_STD")(d=top.a, g=top.b, s=top.VSS, b=top.VSS), name="n0")
             top.add(h.Mos(tp=MosType.PMOS, family=MosFamily.CORE, vth=MosVth.STD)(d=top.a, g=top.b, s=top.VDD, b=top.VDD), name="p0")
         elif kind == "gf180":
-            top.add(h.Mos(model="nfet_03v3")(d=top.a, g=top.b, s=top.VSS, b=top.VSS), name="n0")
-            top.add(h.Mos(model="pfet_03v3")(d=top.a, g=top.b, s=top.VDD, b=top.VDD), name="p0")
+            top.add(h.Mos(model="NFET_3p3V")(d=top.a, g=top.b, s=top.VSS, b=top.VSS), name="n0")
+            top.add(h.Mos(model="PFET_3p3V")(d=top.a, g=top.b, s=top.VDD, b=top.VDD), name="p0")
         elif kind == "asap7":
             top.add(h.Mos(tp=MosType.NMOS)(d=top.a, g=top.b, s=top.VSS, b=top.VSS), name="n0")
             top.add(h.Mos(tp=MosType.PMOS)(d=top.a, g=top.b, s=top.VDD, b=top.VDD), name="p0")
